@@ -348,7 +348,7 @@ func c07Counts(c *core.Ctx, tabs *Tables) {
 			})
 		}
 	}
-	c.Floor("R3/count-source", nAssign, 12)
+	c.Floor("R3/count-source", nAssign, 8)
 	c.Ob("R3/list-reader-writes-no-counts", writers["ReadEncodeAlignmentToList"] == 0, funcPos(c, "pkg/fastaio", "ReadEncodeAlignmentToList"), "the query reader fills base counts, so frequencies would not be the target's")
 	c.Ob("R3/score-reader-writes-counts", writers["ReadEncodeScoreAlignment"] >= 8, funcPos(c, "pkg/fastaio", "ReadEncodeScoreAlignment"), "the scoring reader fills %d count fields (expected 4 at each of the two emission sites)", writers["ReadEncodeScoreAlignment"])
 	// composite literals must not set counts either
@@ -366,7 +366,7 @@ func c07Counts(c *core.Ctx, tabs *Tables) {
 				return
 			}
 			cal := calleeOf(call)
-			if cal == nil || !(cal.Name() == "rawDistance" || cal.Name() == "snpDistance" || cal.Name() == "tn93Distance") {
+			if cal == nil || !(cal.Name() == currentName(c, "pkg/closest", "rawDistance") || cal.Name() == currentName(c, "pkg/closest", "snpDistance") || cal.Name() == currentName(c, "pkg/closest", "tn93Distance")) {
 				return
 			}
 			n++
